@@ -31,4 +31,14 @@ CHECKS = {
   "note": "Trusted: Coq kernel; gen_tables.py; adapters. Chords built without a tonality are outside the quantifier. Structural clauses on "
           "Score/Melody are tied by oracle only (they are maps over the proven per-chord/per-note operations).",
  },
+ "C09": {
+  "text": "Theorems: for every non-empty pitch list the extracted classes form a system (strictly ascending in [0,12)); sidx is the strictly "
+          "increasing enumeration of exactly the system pitches; rank_ge/rank_le are the nearest system pitch above/below; the implementation's "
+          "windowed candidate search (filter + index, Python negative indexing, IndexError) equals the closed form spec_rel for EVERY system of 1..12 "
+          "classes, every reference in [-96,96] and every step count whose answer stays in [-108,108] (unbounded proof, no sweep); results "
+          "belong to the system; up k / down k are mutually inverse from system pitches. Model tied to Chord.to_pitch(note, last_pitch) and "
+          "get_relative_scale_value by differential execution, including window-edge IndexError cases.",
+  "note": "Trusted: Coq kernel; adapters; numpy boolean filtering/indexing = list filtering/indexing. Outside the +-10 octave window the code raises "
+          "IndexError (modelled as None, not claimed). 'Reference survives rests and chord changes' is a rendering-level clause proved with C03's model.",
+ },
 }
